@@ -49,6 +49,21 @@ int rand(void) { int r = IN_INT(); VASSUME(r >= 0); return r; }
 #define FLOWINIT CAT3(flow_, M, _init)
 const parsec_sched_base_component_t CAT3(parsec_sched_, M, _component);
 
+/* container class instances and (where used) the bounded buffer / heap: same translation unit, so
+ * that loop names are stable for --unwindset */
+#include "parsec/class/parsec_list.c"
+#ifdef NEED_DEQUEUE
+#include "parsec/class/parsec_dequeue.c"
+#endif
+#ifdef NEED_LIFO
+#include "parsec/class/parsec_lifo.c"
+#endif
+#ifdef NEED_HB
+#include "parsec/hbbuffer.c"
+#endif
+#ifdef NEED_HEAP
+#include "parsec/maxheap.c"
+#endif
 #include "vp_objstub.h"
 
 /* ---- stubs of services the modules call but that are not under test ---- */
@@ -141,7 +156,12 @@ static void do_schedule(int e, int first, int n, int d)
         parsec_list_item_ring_push(ring, &task(first + i)->super);
     }
     for (int i = 0; i < n; i++) { pending[first + i] = 1; sched_on[first + i] = e; npending++; }
-    int rc = SCHEDULE(es(e), (parsec_task_t *)ring, d);
+    /* the stream is selected by an if-chain of calls with a constant stream (a symbolic stream
+     * pointer makes every es->virtual_process->execution_streams[i]->scheduler_object chain symbolic) */
+    int rc;
+    if (e == 0) rc = SCHEDULE(&ES0, (parsec_task_t *)ring, d);
+    else if (e == 1) rc = SCHEDULE(&ES1, (parsec_task_t *)ring, d);
+    else rc = SCHEDULE(&ES2, (parsec_task_t *)ring, d);
     VASSERTM(rc == PARSEC_SUCCESS, "schedule reports success");
 }
 
@@ -150,7 +170,10 @@ static int last_distance;
 static int do_select(int e)
 {
     int32_t d = 0;
-    parsec_task_t *t = SELECT(es(e), &d);
+    parsec_task_t *t;
+    if (e == 0) t = SELECT(&ES0, &d);
+    else if (e == 1) t = SELECT(&ES1, &d);
+    else t = SELECT(&ES2, &d);
     last_distance = d;
     if (t == NULL) {
         if (npending > 0) null_while_pending++;
@@ -203,8 +226,12 @@ int main(void)
     TC0.flags = IN_BOOL() ? PARSEC_HIGH_PRIORITY_TASK : 0; TC0.nb_flows = 1;
     TC1.flags = 0; TC1.nb_flows = IN_RANGE(0, 1);
 
-    int e1 = IN_RANGE(0, NES - 1), d1 = IN_RANGE(0, DMAX);
-    int e2 = IN_RANGE(0, NES - 1), d2 = IN_RANGE(0, DMAX);
+#ifdef D1
+    int d1 = D1, d2 = D2;              /* distances enumerated by the driver (spq: they shape the bucket list) */
+#else
+    int d1 = IN_RANGE(0, DMAX), d2 = IN_RANGE(0, DMAX);
+#endif
+    int e1 = IN_RANGE(0, NES - 1), e2 = IN_RANGE(0, NES - 1);
     int s1 = IN_RANGE(0, N1);
 
     do_schedule(e1, 0, N1, d1);
@@ -216,7 +243,7 @@ int main(void)
         if (i == 0 && k >= 0) {           /* what __parsec_schedule does with a task it cannot run now */
             parsec_list_item_singleton(&task(k)->super);
             pending[k] = 1; sched_on[k] = e; npending++;
-            int rc = SCHEDULE(es(e), task(k), last_distance + 1);
+            int rc = e == 0 ? SCHEDULE(&ES0, task(k), last_distance + 1) : e == 1 ? SCHEDULE(&ES1, task(k), last_distance + 1) : SCHEDULE(&ES2, task(k), last_distance + 1);
             VASSERTM(rc == PARSEC_SUCCESS, "re-schedule reports success");
             resched_done++;
         }
@@ -226,10 +253,10 @@ int main(void)
     }
     do_schedule(e2, N1, N2, d2);
 
-    /* drain: every stream selects until it sees NULL (at most NT+RESCHED tasks can come out) */
+    /* drain: every stream in turn selects until it sees NULL (at most NT tasks can come out) */
     for (int e = 0; e < NES; e++) {
         int got_null = 0;
-        for (int i = 0; i < NT + 1; i++) {
+        for (int i = 0; i < NT; i++) {
             if (got_null || npending == 0) continue;
             if (do_select(e) < 0) got_null = 1;
         }
